@@ -49,6 +49,7 @@ const (
 	evUpdate   = "update"   // dtypes.EventDeploymentUpdated{Version: vB}
 	evUpdate2  = "update2"  // a second, distinct update: dtypes.EventDeploymentUpdated{Version: vC} (C10 version protocol)
 	evUpdateA  = "updateA"  // a later update that returns to the INITIAL version: dtypes.EventDeploymentUpdated{Version: vA}
+	evUpdateB2 = "updateB2" // another update to vB (a version the deployment had before: rolled forward, back and forward again)
 	evSubC     = "subC"     // Submit(manifest C: valid for version vC, i.e. only after update2)
 	evClose1   = "close1"   // mtypes.EventLeaseClosed for lease 1 (offered after lease1)
 	evClose2   = "close2"   // mtypes.EventLeaseClosed for lease 2 (offered after lease2)
@@ -685,6 +686,8 @@ func (in *inst) menu() []action {
 				f = func() { in.update("C") }
 			case evUpdateA:
 				f = func() { in.update("A") }
+			case evUpdateB2:
+				f = func() { in.update("B") }
 			case evClose1:
 				f = func() { in.publish(mtypes.NewEventLeaseClosed(fx.leases[0], sdk.NewInt64Coin("uakt", 10))) }
 			case evClose2:
